@@ -60,4 +60,11 @@ theorem src :
     Gen.Bech32.src_base32_DecodedLen = Expect.Bech32_src_base32_DecodedLen :=
   ⟨rfl, rfl, rfl, rfl, rfl, rfl, rfl, rfl, rfl, rfl, rfl, rfl, rfl, rfl, rfl, rfl, rfl⟩
 
+/-- everything else the package declares (imports, constants, types, variables, build constraints and the functions not
+pinned one by one) is unchanged too: no declaration of the modelled packages can change without a tie theorem failing. -/
+theorem rest :
+    Gen.Bech32.rest_base32 = Expect.Bech32_rest_base32 ∧
+    Gen.Bech32.rest_bech32 = Expect.Bech32_rest_bech32 :=
+  ⟨rfl, rfl⟩
+
 end Iota.Tie.Bech32
